@@ -92,4 +92,79 @@ theorem instance_class_shared {ci : Nat} {cd : ClassDesc} {h : Heap} {span sub :
   have := RA x ra
   omega
 
+/-! ### Caller-owned (mutable) constructor arguments
+
+`self.__dict__['span'] = span` stores the caller's object by reference.  The caller allocates a span list `s`
+(location `h.length`; the caller keeps that handle) and passes it to the constructor. -/
+
+theorem wf_append_leaf {h : Heap} (wf : WF h) {s : Obj} (leaf : ∀ k c, (k, Val.ref c) ∉ s.slots) : WF (h ++ [s]) := by
+  intro l o k c ho hm
+  by_cases hl : l < h.length
+  · rw [getElem?_append_lt h _ hl] at ho
+    have := wf l o k c ho hm
+    simp; omega
+  · have : l = h.length := by have := getElem?_lt ho; simp at this; omega
+    subst this
+    rw [getElem?_append_self] at ho
+    cases ho
+    exact absurd hm (leaf k c)
+
+/-- A new instance built on the caller's own span list `s` reaches its own new objects and that list — nothing
+    older. -/
+theorem reach_newInst_span {ci : Nat} {cd : ClassDesc} {h : Heap} {s : Obj} {sub : Val} (wf : WF h)
+    (ok : ClassOK h cd) (leaf : ∀ k c, (k, Val.ref c) ∉ s.slots) (hsub : ∃ i, sub = .imm i) :
+    Ext (h ++ [s]) (newInst ci cd (h ++ [s]) (.ref h.length) sub).1 ∧
+    WF (newInst ci cd (h ++ [s]) (.ref h.length) sub).1 ∧
+    h.length < (newInst ci cd (h ++ [s]) (.ref h.length) sub).2 ∧
+    (newInst ci cd (h ++ [s]) (.ref h.length) sub).2 < (newInst ci cd (h ++ [s]) (.ref h.length) sub).1.length ∧
+    (∀ x, Reach (newInst ci cd (h ++ [s]) (.ref h.length) sub).1 (newInst ci cd (h ++ [s]) (.ref h.length) sub).2 x →
+      h.length ≤ x) := by
+  obtain ⟨i2, rfl⟩ := hsub
+  have wf' : WF (h ++ [s]) := wf_append_leaf wf leaf
+  have ok' : ClassOK (h ++ [s]) cd := ok.ext wf (Ext.append _ _)
+  have B' : Blk h.length (h ++ [s]) := by
+    apply (blk_self h).append
+    intro e he k c hm
+    simp at he; subst he
+    exact absurd hm (leaf k c)
+  have C := construct_ok (b := h.length) wf' (Ext.refl _) ok' B' (by simp) (.ref h.length) (.imm i2)
+    (NewV.ref (Nat.le_refl _) (by simp)) (NewV.imm _ _ _)
+  unfold newInst
+  generalize construct cd (h ++ [s]) (.ref h.length) (.imm i2) = r at C
+  obtain ⟨h1, ss⟩ := r
+  simp only at C ⊢
+  have Cext : Ext (h ++ [s]) h1 := C.ext
+  have Cblk : Blk h.length h1 := C.blk
+  have Cslots : ∀ k v, (k, v) ∈ ss → NewV h.length h1 v := C.slots
+  clear C
+  have len1 := Cext.len
+  simp at len1
+  have B2 : Blk h.length (h1 ++ [⟨.inst ci, ss⟩]) := by
+    apply Cblk.append
+    intro e he k c hm
+    simp at he; subst he
+    have := Cslots k _ hm c rfl
+    simp; omega
+  refine ⟨Cext.trans (Ext.append _ _),
+    wf_of_blk wf ((Ext.append h [s]).trans (Cext.trans (Ext.append _ _))) B2, by omega, by simp, ?_⟩
+  intro x r
+  exact B2.reach (by omega) r
+
+/-- In a fresh instance the `span` entry is the constructor argument itself. -/
+theorem construct_lookup_span (cd : ClassDesc) (h : Heap) (span sub : Val) :
+    (construct cd h span sub).2.lookup "span" = some span := by
+  unfold construct
+  simp only [thread_snd]
+  have hA : (stageAlias cd h).2.lookup "span" = none := by
+    unfold stageAlias
+    by_cases ha : cd.alias = true <;> simp [ha, List.lookup]
+  have hL : ∀ h', (stageLinker cd sub h').2.lookup "span" = none := by
+    intro h'
+    unfold stageLinker
+    by_cases hl : cd.base = .linker
+    · cases sub <;> simp [hl, List.lookup]
+    · simp [hl, List.lookup]
+  simp only [List.nil_append, lookup_append, hA, hL]
+  simp [stageContainer, List.lookup]
+
 end Fsic.Heap
